@@ -117,7 +117,11 @@ def body_decode(ctx, case):
         return
     chars = CHARS[:C - 1] + ["​"]
     want = [ref_collapse(p, blank, chars) for p in paths]
-    got = ctx.must("greedy_decode_ctc_raises", greedy_decode_ctc, torch.from_numpy(sc.copy()), chars)
+    t_in = torch.from_numpy(sc.copy())
+    got = ctx.must("greedy_decode_ctc_raises", greedy_decode_ctc, t_in, chars)
+    ctx.check(bool(torch.equal(t_in, torch.from_numpy(sc))), "decoder_modifies_its_input", lambda: "C=%d paths=%r" % (C, paths))
+    again = ctx.must("greedy_decode_ctc_raises", greedy_decode_ctc, t_in, chars)
+    ctx.check(list(again) == list(got), "second_decoding_differs", lambda: "C=%d paths=%r %r vs %r" % (C, paths, got, again))
     ctx.check(list(got) == want, "batched_greedy_not_collapse_of_argmax",
               lambda: "C=%d paths=%r got %r want %r" % (C, paths, got, want))
     dec = GreedyDecoder(CHARS[:C - 1] + [BLANK_SYMBOL])
